@@ -12,6 +12,9 @@
         the stateless calls on many file contents at once (exhaustive small enumerations): for each block the
         world is a live/zombie process whose cmdline resp. environ file holds exactly these bytes
         → {"many":[{"model": out, "spec": out | null}, …]}
+        | {"op":"kernel","areas":[[hex argArea, hex envArea],…]} → {"kernel":[hex,…]}  (`Spec.kernelCmdline`: what
+        the kernel exposes for this memory; ties the harness's kernel simulator to the definition the theorem
+        C12_cmdline_setproctitle is about)
    out: {"model": out, "spec": out | null}
    out: {"kind":"ok","args":[hex…]} | {"kind":"ok","dict":[[hex,hex]…]} | {"kind":"ok","str":hex}
         | {"kind":"ok","opt":hex|null}
@@ -127,6 +130,14 @@ def handle (d : DSt) (j : Json) : R (DSt × Json) := do
       let w : World := if c == Call.cmdline then { base with cmdline := .data b } else { base with environ := .data b }
       jObj [("model", jOut (step cfg St.init w c).2), ("spec", jOpt jOut (Spec.call [] w c))]
     return (d, jObj [("many", jList one blocks)])
+  if op == "kernel" then
+    let areas ← listF (fun v => match v.getArr? with
+      | .ok #[x, y] => do
+        let x ← asBytes x
+        let y ← asBytes y
+        pure (x, y)
+      | _ => .error "area must be [hex, hex]") j "areas"
+    return (d, jObj [("kernel", jList (fun p => jBytes (Spec.kernelCmdline p.1 p.2)) areas)])
   if op != "step" then
     throw s!"unknown op {op}"
   let c ← strF j "call" >>= parseCall
